@@ -56,9 +56,10 @@ func (cs *dcase) dnNested(outer *rux.Context, n int, pos string) {
 	}
 	// the bookkeeping of the outer request is put aside; trace and writer log go on (the nested events are part of
 	// what the outer request did)
-	svCtx, svReq, svRec, svActs, svData, svParam := cs.curCtx, cs.curReq, cs.curRec, cs.actions, cs.expData, cs.expParam
+	svCtx, svReq, svRec, svActs, svData, svParam, svErr := cs.curCtx, cs.curReq, cs.curRec, cs.actions, cs.expData, cs.expParam, cs.expErr
+	cs.expErr = nil
 	defer func() {
-		cs.curCtx, cs.curReq, cs.curRec, cs.actions, cs.expData, cs.expParam = svCtx, svReq, svRec, svActs, svData, svParam
+		cs.curCtx, cs.curReq, cs.curRec, cs.actions, cs.expData, cs.expParam, cs.expErr = svCtx, svReq, svRec, svActs, svData, svParam, svErr
 		cs.dn.depth--
 	}()
 	cs.dn.depth++
@@ -129,6 +130,10 @@ func dnCtxCorpus() []Case {
 		// answers: the nested request must not get the context of the request that is being recovered
 		{Ops: []string{"new 0 0", "use dp,nx", "route 1 s 0 st:6b:76,pn:s.78", "route 2 s 0 wr:" + hx("page"), "onpanic nr:2,st:" + hx("leak") + ":31,ae:6531,ab,ss:500,wr:" + hx("panic page"), "serve r 1 - -", "serve r 2 - -", "serve r 1 - -"}, Tag: "corpus-nested-hook"},
 		{Ops: []string{"new 1 1", "route 1 d1 0 dp,pn:e.6572", "notfound dp,em:1", "onerror nr:0", "route 2 s 0 dp,ae:6531", "onpanic em:1,nr:0,wr:" + hx("x"), "serve r 1 7661 -", "serve nf 0", "serve r 2 - -", "serveh r 1 7661 -"}, Tag: "corpus-nested-hook"},
+		// two contexts alive at once, each with an error of its own: the outer handler records an error, serves a nested
+		// request whose handler records another one, and then looks at its own error list again
+		{Ops: []string{"new 0 0", "use dp,nx", "route 1 s 0 ae:" + hx("e1") + ",nr:2,dp,ae:" + hx("e3") + ",dp", "route 2 s 0 ae:" + hx("e2") + ",dp", "serve r 1 - -", "serve r 2 - -", "serve r 1 - -"}, Tag: "corpus-nested-errors"},
+		{Ops: []string{"new 0 1", "route 1 d1 1 ae:" + hx("e1") + ",nx,dp ae:" + hx("e4") + ",nr:2,dp", "route 2 s 0 ae:" + hx("e2") + ",ae:" + hx("e5") + ",dp", "onerror dp", "serve r 1 7661 -", "serve r 1 7662 -"}, Tag: "corpus-nested-errors"},
 		// a request that hijacks its connection, then requests that only set a status, write a body, hit 404 / 405
 		{Ops: []string{"new 0 1", "route 1 s 0 dp,hj", "route 2 s 0 dp,ss:201,wr:" + hx("created"), "route 3 s 0 dp,ss:204", "serve r 1 - -", "serve r 2 - -", "serve r 1 - -", "serve r 3 - -", "serve nf 0", "serve na 1 - -", "serve r 1 - -", "serve r 3 - -"}, Tag: "corpus-hijack"},
 	}
